@@ -88,6 +88,8 @@ struct Mod {
     import_func: Vec<Option<walrus::FunctionId>>,
     /// per table slot: is it a funcref table
     table_is_func: Vec<bool>,
+    /// per export slot: the function it exports (None: another kind)
+    export_func: Vec<Option<walrus::FunctionId>>,
     counter: u32,
 }
 
@@ -142,6 +144,7 @@ impl Mod {
             custom_payload: Vec::new(),
             import_func: Vec::new(),
             table_is_func: Vec::new(),
+            export_func: Vec::new(),
             counter: 0,
         }
     }
@@ -490,17 +493,28 @@ fn add_op(md: &mut Mod, coll: CollKind, arg: u32, counters: &mut Vec<(String, u6
         CollKind::Exports => {
             // export some live item (exports may dangle later: nothing is emitted in this check)
             let name = if arg % 4 == 3 { "dupex".to_string() } else { format!("ex{}", k) };
-            let id = if let Some(f) = md.funcs.live_ids().first() {
-                md.m.exports.add(&name, *f)
-            } else if let Some(g) = md.globals.live_ids().first() {
-                md.m.exports.add(&name, *g)
-            } else if let Some(x) = md.memories.live_ids().first() {
-                md.m.exports.add(&name, *x)
-            } else if let Some(x) = md.tables.live_ids().first() {
-                md.m.exports.add(&name, *x)
-            } else {
-                return Ok(());
+            // the exported kind varies (a global and a function may share an export name in a history, although a
+            // module with both could not be emitted: nothing is emitted in this check)
+            let order: [u8; 4] = match (arg / 4) % 4 {
+                0 => [0, 1, 2, 3],
+                1 => [1, 0, 2, 3],
+                2 => [2, 1, 0, 3],
+                _ => [0, 3, 1, 2],
             };
+            let mut made: Option<(walrus::ExportId, Option<walrus::FunctionId>)> = None;
+            for kind in order {
+                made = match kind {
+                    0 => md.funcs.live_ids().first().map(|f| (md.m.exports.add(&name, *f), Some(*f))),
+                    1 => md.globals.live_ids().first().map(|g| (md.m.exports.add(&name, *g), None)),
+                    2 => md.memories.live_ids().first().map(|x| (md.m.exports.add(&name, *x), None)),
+                    _ => md.tables.live_ids().first().map(|x| (md.m.exports.add(&name, *x), None)),
+                };
+                if made.is_some() {
+                    break;
+                }
+            }
+            let Some((id, func)) = made else { return Ok(()) };
+            md.export_func.push(func);
             if let Err(e) = md.exports.add(id, name) {
                 return fail("id_never_reused", format!("exports: {}", e));
             }
@@ -691,6 +705,12 @@ fn find_op(md: &mut Mod, coll: CollKind, arg: u32, counters: &mut Vec<(String, u
             let k = arg as usize % md.exports.fp.len();
             let name = md.exports.fp[k].clone();
             let first = (0..md.exports.fp.len()).find(|j| md.exports.alive[*j] && md.exports.fp[*j] == name);
+            // get_func(name): the first live FUNCTION export of that name, whatever other kinds carry the name
+            let want_f = (0..md.exports.fp.len()).find(|j| md.exports.alive[*j] && md.exports.fp[*j] == name && md.export_func[*j].is_some()).and_then(|j| md.export_func[j]);
+            let got_f = md.m.exports.get_func(&name).ok();
+            if want_f != got_f {
+                return fail("finder_agrees_with_model", format!("exports.get_func({:?}) = {:?}, the model's first live function export of that name is {:?}", name, got_f.map(|i| i.index()), want_f.map(|i| i.index())));
+            }
             if arg % 5 == 0 {
                 // remove by name: deletes exactly the FIRST live export of that name, or reports an error and changes nothing
                 let r = md.m.exports.remove(&name);
